@@ -196,7 +196,7 @@ def assignment_of(o, nin, mode, kinds=('open_w',)):
 
 def concat_order(o, k, mode):
     """the order in which the concat_parts tasks ran, read off the trace: a task starts
-    with `isfile part_output_path` (non-empty output) or `exists parts_tmp_path` (empty)"""
+    with `isfile part_output_path` (non-empty output) or `rm parts_tmp_path` (empty)"""
     last_mk = max([j for j, t in enumerate(o.trace) if t[0] == 'makedirs'], default=-1)
     order = []
     rx_out = re.compile(r'^%s/part\.(\d+)\.parquet$' % DS)
@@ -209,7 +209,7 @@ def concat_order(o, k, mode):
         m = None
         if t[0] == 'isfile':
             m = rx_out.match(t[1])
-        elif t[0] == 'exists':
+        elif t[0] == 'rm':
             m = rx_tmp.match(t[1])
         if m and int(m.group(1)) not in order:
             order.append(int(m.group(1)))
